@@ -15,8 +15,10 @@ import Mathlib.Algebra.Order.Ring.Rat
 `intersection_iff`: the helper's test is equivalent to the existence of a common point, for every pair of non-parallel
 segments over an ordered field.  `broadcast_spec`: per-element and per-subset-element labels give the same colours.
 `tile9_alignment`: image `j` of edge `i` carries colour `i`.  `fractions_sum_one`: the nine periodic images of an edge show, inside the unit cell, fractions of it that add up to exactly 1
-(exact clipping, the oracle the harness applies to the drawn artists).  That the code draws exactly the images with a positive
-fraction ("crosses the cell or lies fully inside") is decided on the artists (correspondence). -/
+(exact clipping, the oracle the harness applies to the drawn artists).  `meets_visible` / `drawn_fractions_sum_one`: the mask `vis` of `plot_edges` (`_lines_cross_unit_cell | _line_fully_in_unit_cell`,
+modelled in `Plot.visible`) is true for every image that meets the open cell, so the pieces actually drawn add up to the whole edge,
+for every generic edge.  `needed_copies_drawn` / `polyOffsets_nodup`: `plot_plaquettes` draws every copy of a plaquette whose extent
+meets the cell, and none twice (convex or not). -/
 
 namespace C16
 open Plot
@@ -152,7 +154,7 @@ theorem tile9_alignment {α : Type} (colors : List α) (i j : Nat) (hi : i < col
 theorem tile9_length {α : Type} (colors : List α) : (tile9 colors).length = 9 * colors.length := by
   unfold tile9; simp; omega
 
-/-! ### the visible-image rule (stated, not proved) -/
+/-! ### the visible-image rule: first the easy half (the full rule is `meets_visible` below) -/
 
 /-- a segment `p + t·v`, `t ∈ [0,1]`, meets the open unit cell -/
 def MeetsOpenCell (p v : ℚ × ℚ) : Prop :=
@@ -289,5 +291,519 @@ example : frac ((3 : ℚ) / 4, (3 : ℚ) / 4) ((1 : ℚ) / 2, (1 : ℚ) / 2) = 1
   unfold frac tInt; norm_num
 example : frac ((3 : ℚ) / 4 - 1, (3 : ℚ) / 4 - 1) ((1 : ℚ) / 2, (1 : ℚ) / 2) = 1 / 2 := by
   unfold frac tInt; norm_num
+
+
+/-! ### the visible-image rule of `plot_edges` -/
+
+/-- the point of the segment at parameter `t` along one axis, as the code writes it: `start·t + (1−t)·end` -/
+def lin (s e t : ℚ) : ℚ := s * t + (1 - t) * e
+
+theorem lin_one (s e : ℚ) : lin s e 1 = s := by unfold lin; ring
+theorem lin_zero (s e : ℚ) : lin s e 0 = e := by unfold lin; ring
+
+theorem wallT_ne (s e l : ℚ) (h : s - e ≠ 0) : wallT s e l = (l - e) / (s - e) := by
+  unfold wallT; rw [if_neg h]
+
+/-- if the coordinate is on different sides of the wall `l` at the parameters `tm` and `tb`, the code's `t` for that wall
+    lies strictly between them and the coordinate equals `l` there -/
+theorem reach (s e l tm tb : ℚ) (h : (lin s e tm - l) * (lin s e tb - l) < 0) :
+    s - e ≠ 0 ∧ lin s e (wallT s e l) = l ∧ (wallT s e l - tm) * (wallT s e l - tb) < 0 := by
+  have hne : s - e ≠ 0 := by
+    intro h0
+    have hse : s = e := by linarith
+    subst hse
+    have : (lin s s tm - l) * (lin s s tb - l) = (s - l) * (s - l) := by unfold lin; ring
+    rw [this] at h
+    nlinarith [mul_self_nonneg (s - l)]
+  refine ⟨hne, ?_, ?_⟩
+  · rw [wallT_ne s e l hne]; unfold lin; field_simp; ring
+  · rw [wallT_ne s e l hne]
+    have h1 : lin s e tm - l = (s - e) * (tm - (l - e) / (s - e)) := by unfold lin; field_simp; ring
+    have h2 : lin s e tb - l = (s - e) * (tb - (l - e) / (s - e)) := by unfold lin; field_simp; ring
+    rw [h1, h2] at h
+    have hsq : 0 < (s - e) * (s - e) := mul_self_pos.mpr hne
+    by_contra hcon
+    have hcon := not_lt.mp hcon
+    have : 0 ≤ (s - e) * (s - e) * (((l - e) / (s - e) - tm) * ((l - e) / (s - e) - tb)) := mul_nonneg (le_of_lt hsq) hcon
+    nlinarith
+
+/-- strictly between in the parameter ⇒ strictly between in the value (non-constant coordinate) -/
+theorem lin_between (s e t a b : ℚ) (hne : s - e ≠ 0) (h : (t - a) * (t - b) < 0) :
+    (lin s e t - lin s e a) * (lin s e t - lin s e b) < 0 := by
+  have : (lin s e t - lin s e a) * (lin s e t - lin s e b) = (s - e) * (s - e) * ((t - a) * (t - b)) := by unfold lin; ring
+  rw [this]
+  exact mul_neg_of_pos_of_neg (mul_self_pos.mpr hne) h
+
+theorem between_unit (t a b : ℚ) (ha0 : 0 ≤ a) (ha1 : a ≤ 1) (hb0 : 0 ≤ b) (hb1 : b ≤ 1) (h : (t - a) * (t - b) < 0) :
+    0 < t ∧ t < 1 := by
+  rcases lt_trichotomy t a with h1 | h1 | h1
+  · have : 0 < t - b := by
+      by_contra hc; have hc := not_lt.mp hc
+      nlinarith [mul_nonneg_of_nonpos_of_nonpos (le_of_lt (sub_neg.mpr h1)) hc]
+    constructor <;> linarith
+  · subst h1; simp at h
+  · have : t - b < 0 := by
+      by_contra hc; have hc := not_lt.mp hc
+      nlinarith [mul_nonneg (le_of_lt (sub_pos.mpr h1)) hc]
+    constructor <;> linarith
+
+theorem crossAt_of (sa ea sb eb l : ℚ) (h0 : 0 < wallT sa ea l) (h1 : wallT sa ea l ≤ 1)
+    (h2 : 0 < lin sb eb (wallT sa ea l)) (h3 : lin sb eb (wallT sa ea l) ≤ 1) : crossAt sa ea sb eb l = true := by
+  unfold crossAt
+  unfold lin at h2 h3
+  simp [h0, h1, h2, h3]
+
+/-- **leaving the cell**: the segment is inside the open cell at `tm`; along the axis `F` it is beyond the wall `l` at `tb`.
+    Unless it passes exactly through a cell corner, one of the code's four crossing tests fires: either the `F`-wall `l`
+    is reached with the other coordinate in `(0, 1)`, or a `G`-wall is reached first with the `F` coordinate in `(0, 1)`. -/
+theorem exit_cross (fs fe gs ge l tm tb : ℚ) (hl : l = 0 ∨ l = 1)
+    (htm0 : 0 ≤ tm) (htm1 : tm ≤ 1) (htb0 : 0 ≤ tb) (htb1 : tb ≤ 1)
+    (hF : 0 < lin fs fe tm ∧ lin fs fe tm < 1) (hG : 0 < lin gs ge tm ∧ lin gs ge tm < 1)
+    (hout : (lin fs fe tm - l) * (lin fs fe tb - l) < 0)
+    (hcorner : ∀ t, 0 ≤ t → t ≤ 1 → ¬ ((lin fs fe t = 0 ∨ lin fs fe t = 1) ∧ (lin gs ge t = 0 ∨ lin gs ge t = 1))) :
+    crossAt fs fe gs ge l = true ∨ crossAt gs ge fs fe 0 = true ∨ crossAt gs ge fs fe 1 = true := by
+  obtain ⟨hne, hFt, hbt⟩ := reach fs fe l tm tb hout
+  set t1 := wallT fs fe l with ht1
+  obtain ⟨ht10, ht11⟩ := between_unit t1 tm tb htm0 htm1 htb0 htb1 hbt
+  have hFl : lin fs fe t1 = 0 ∨ lin fs fe t1 = 1 := by rw [hFt]; exact hl
+  have hnc := hcorner t1 (le_of_lt ht10) (le_of_lt ht11)
+  -- where is the other coordinate at t1?
+  rcases lt_trichotomy (lin gs ge t1) 0 with hg | hg | hg
+  · -- below 0: the G-wall 0 is crossed between tm and t1
+    right; left
+    have hout2 : (lin gs ge tm - 0) * (lin gs ge t1 - 0) < 0 := by
+      simp only [sub_zero]; exact mul_neg_of_pos_of_neg hG.1 hg
+    obtain ⟨hne2, hGt, hbt2⟩ := reach gs ge 0 tm t1 hout2
+    set t2 := wallT gs ge 0 with ht2
+    obtain ⟨ht20, ht21⟩ := between_unit t2 tm t1 htm0 htm1 (le_of_lt ht10) (le_of_lt ht11) hbt2
+    have hb := lin_between fs fe t2 tm t1 hne hbt2
+    rw [hFt] at hb
+    have hF2 : 0 < lin fs fe t2 ∧ lin fs fe t2 < 1 := by
+      rcases hl with hl | hl <;> subst hl <;> constructor <;> nlinarith [hF.1, hF.2]
+    exact crossAt_of gs ge fs fe 0 ht20 (le_of_lt ht21) hF2.1 (le_of_lt hF2.2)
+  · exact absurd ⟨hFl, Or.inl hg⟩ hnc
+  · rcases lt_trichotomy (lin gs ge t1) 1 with hg1 | hg1 | hg1
+    · left
+      exact crossAt_of fs fe gs ge l ht10 (le_of_lt ht11) hg (le_of_lt hg1)
+    · exact absurd ⟨hFl, Or.inr hg1⟩ hnc
+    · right; right
+      have hout2 : (lin gs ge tm - 1) * (lin gs ge t1 - 1) < 0 :=
+        mul_neg_of_neg_of_pos (by linarith [hG.2]) (by linarith)
+      obtain ⟨hne2, hGt, hbt2⟩ := reach gs ge 1 tm t1 hout2
+      set t2 := wallT gs ge 1 with ht2
+      obtain ⟨ht20, ht21⟩ := between_unit t2 tm t1 htm0 htm1 (le_of_lt ht10) (le_of_lt ht11) hbt2
+      have hb := lin_between fs fe t2 tm t1 hne hbt2
+      rw [hFt] at hb
+      have hF2 : 0 < lin fs fe t2 ∧ lin fs fe t2 < 1 := by
+        rcases hl with hl | hl <;> subst hl <;> constructor <;> nlinarith [hF.1, hF.2]
+      exact crossAt_of gs ge fs fe 1 ht20 (le_of_lt ht21) hF2.1 (le_of_lt hF2.2)
+
+/-- a segment `(start, end)` is **generic** for the cell: no end point coordinate lies on a wall line, and the segment
+    does not pass exactly through a cell corner -/
+structure GenericSeg (s e : ℚ × ℚ) : Prop where
+  s1 : s.1 ≠ 0 ∧ s.1 ≠ 1
+  s2 : s.2 ≠ 0 ∧ s.2 ≠ 1
+  e1 : e.1 ≠ 0 ∧ e.1 ≠ 1
+  e2 : e.2 ≠ 0 ∧ e.2 ≠ 1
+  corner : ∀ t, 0 ≤ t → t ≤ 1 → ¬ ((lin s.1 e.1 t = 0 ∨ lin s.1 e.1 t = 1) ∧ (lin s.2 e.2 t = 0 ∨ lin s.2 e.2 t = 1))
+
+/-- the image meets the open unit cell -/
+def MeetsOpen (s e : ℚ × ℚ) : Prop :=
+  ∃ t : ℚ, 0 ≤ t ∧ t ≤ 1 ∧ 0 < lin s.1 e.1 t ∧ lin s.1 e.1 t < 1 ∧ 0 < lin s.2 e.2 t ∧ lin s.2 e.2 t < 1
+
+theorem visible_of_cross {s e : ℚ × ℚ}
+    (h : crossAt s.1 e.1 s.2 e.2 0 = true ∨ crossAt s.2 e.2 s.1 e.1 0 = true ∨ crossAt s.1 e.1 s.2 e.2 1 = true ∨
+      crossAt s.2 e.2 s.1 e.1 1 = true) : visible s e = true := by
+  unfold visible crossesCell
+  rcases h with h | h | h | h <;> simp [h]
+
+/-- **C16 (edges, which images are drawn)**: every periodic image of an edge that meets the open unit cell is drawn
+    (`vis` is true for it), for every generic segment. -/
+theorem meets_visible (s e : ℚ × ℚ) (hg : GenericSeg s e) (hm : MeetsOpen s e) : visible s e = true := by
+  obtain ⟨tm, htm0, htm1, hx0, hx1, hy0, hy1⟩ := hm
+  have hcx := hg.corner
+  have hcy : ∀ t, 0 ≤ t → t ≤ 1 → ¬ ((lin s.2 e.2 t = 0 ∨ lin s.2 e.2 t = 1) ∧ (lin s.1 e.1 t = 0 ∨ lin s.1 e.1 t = 1)) :=
+    fun t h0 h1 h => hcx t h0 h1 ⟨h.2, h.1⟩
+  by_cases hin : fullyInside s e = true
+  · unfold visible; simp [hin]
+  · apply visible_of_cross
+    -- some end point coordinate is outside (0,1), hence (genericity) strictly beyond a wall
+    have hout : s.1 < 0 ∨ 1 < s.1 ∨ s.2 < 0 ∨ 1 < s.2 ∨ e.1 < 0 ∨ 1 < e.1 ∨ e.2 < 0 ∨ 1 < e.2 := by
+      by_contra hcon
+      simp only [not_or, not_lt] at hcon
+      obtain ⟨a1, a2, a3, a4, a5, a6, a7, a8⟩ := hcon
+      apply hin
+      unfold fullyInside
+      have b1 := lt_of_le_of_ne a1 (Ne.symm hg.s1.1)
+      have b2 := lt_of_le_of_ne a2 hg.s1.2
+      have b3 := lt_of_le_of_ne a3 (Ne.symm hg.s2.1)
+      have b4 := lt_of_le_of_ne a4 hg.s2.2
+      have b5 := lt_of_le_of_ne a5 (Ne.symm hg.e1.1)
+      have b6 := lt_of_le_of_ne a6 hg.e1.2
+      have b7 := lt_of_le_of_ne a7 (Ne.symm hg.e2.1)
+      have b8 := lt_of_le_of_ne a8 hg.e2.2
+      simp [b1, b2, b3, b4, b5, b6, b7, b8]
+    rcases hout with h | h | h | h | h | h | h | h
+    · -- start left of the cell
+      have := exit_cross s.1 e.1 s.2 e.2 0 tm 1 (Or.inl rfl) htm0 htm1 zero_le_one (le_refl 1) ⟨hx0, hx1⟩ ⟨hy0, hy1⟩
+        (by rw [lin_one]; simp only [sub_zero]; exact mul_neg_of_pos_of_neg hx0 h) hcx
+      tauto
+    · have := exit_cross s.1 e.1 s.2 e.2 1 tm 1 (Or.inr rfl) htm0 htm1 zero_le_one (le_refl 1) ⟨hx0, hx1⟩ ⟨hy0, hy1⟩
+        (by rw [lin_one]; exact mul_neg_of_neg_of_pos (by linarith) (by linarith)) hcx
+      tauto
+    · have := exit_cross s.2 e.2 s.1 e.1 0 tm 1 (Or.inl rfl) htm0 htm1 zero_le_one (le_refl 1) ⟨hy0, hy1⟩ ⟨hx0, hx1⟩
+        (by rw [lin_one]; simp only [sub_zero]; exact mul_neg_of_pos_of_neg hy0 h) hcy
+      tauto
+    · have := exit_cross s.2 e.2 s.1 e.1 1 tm 1 (Or.inr rfl) htm0 htm1 zero_le_one (le_refl 1) ⟨hy0, hy1⟩ ⟨hx0, hx1⟩
+        (by rw [lin_one]; exact mul_neg_of_neg_of_pos (by linarith) (by linarith)) hcy
+      tauto
+    · have := exit_cross s.1 e.1 s.2 e.2 0 tm 0 (Or.inl rfl) htm0 htm1 (le_refl 0) zero_le_one ⟨hx0, hx1⟩ ⟨hy0, hy1⟩
+        (by rw [lin_zero]; simp only [sub_zero]; exact mul_neg_of_pos_of_neg hx0 h) hcx
+      tauto
+    · have := exit_cross s.1 e.1 s.2 e.2 1 tm 0 (Or.inr rfl) htm0 htm1 (le_refl 0) zero_le_one ⟨hx0, hx1⟩ ⟨hy0, hy1⟩
+        (by rw [lin_zero]; exact mul_neg_of_neg_of_pos (by linarith) (by linarith)) hcx
+      tauto
+    · have := exit_cross s.2 e.2 s.1 e.1 0 tm 0 (Or.inl rfl) htm0 htm1 (le_refl 0) zero_le_one ⟨hy0, hy1⟩ ⟨hx0, hx1⟩
+        (by rw [lin_zero]; simp only [sub_zero]; exact mul_neg_of_pos_of_neg hy0 h) hcy
+      tauto
+    · have := exit_cross s.2 e.2 s.1 e.1 1 tm 0 (Or.inr rfl) htm0 htm1 (le_refl 0) zero_le_one ⟨hy0, hy1⟩ ⟨hx0, hx1⟩
+        (by rw [lin_zero]; exact mul_neg_of_neg_of_pos (by linarith) (by linarith)) hcy
+      tauto
+
+/-- strictly inside the `t`-interval of an axis ⇒ the coordinate is strictly inside `(0, 1)` (an axis-parallel segment
+    is required not to lie on a wall line) -/
+theorem tInt_strict (a δ t : ℚ) (h1 : (tInt a δ).1 < t) (h2 : t < (tInt a δ).2) (hgen : δ ≠ 0 ∨ (a ≠ 0 ∧ a ≠ 1)) :
+    0 < a + t * δ ∧ a + t * δ < 1 := by
+  unfold tInt at h1 h2
+  rcases lt_trichotomy δ 0 with hneg | hzero | hpos
+  · have hnp : ¬ (0 < δ) := not_lt.mpr (le_of_lt hneg)
+    simp only [hnp, hneg, if_false, if_true] at h1 h2
+    rw [div_lt_iff_of_neg hneg] at h1
+    rw [lt_div_iff_of_neg hneg] at h2
+    constructor <;> linarith
+  · subst hzero
+    simp only [lt_irrefl, if_false] at h1 h2
+    by_cases hc : 0 ≤ a ∧ a ≤ 1
+    · rcases hgen with h | h
+      · exact absurd rfl h
+      · simp only [mul_zero, add_zero]
+        exact ⟨lt_of_le_of_ne hc.1 (Ne.symm h.1), lt_of_le_of_ne hc.2 h.2⟩
+    · rw [if_neg hc] at h1 h2
+      simp only at h1 h2
+      linarith
+  · simp only [hpos, if_true] at h1 h2
+    rw [div_lt_iff₀ hpos] at h1
+    rw [lt_div_iff₀ hpos] at h2
+    constructor <;> linarith
+
+theorem lin_eq (s e t : ℚ) : lin s e t = e + t * (s - e) := by unfold lin; ring
+
+/-- an image of which a positive fraction lies in the closed cell meets the open cell (end point coordinates off the wall lines) -/
+theorem frac_pos_meets (s e : ℚ × ℚ) (he1 : e.1 ≠ 0 ∧ e.1 ≠ 1) (he2 : e.2 ≠ 0 ∧ e.2 ≠ 1)
+    (h : 0 < frac e (s.1 - e.1, s.2 - e.2)) : MeetsOpen s e := by
+  unfold frac at h
+  simp only at h
+  set X := tInt e.1 (s.1 - e.1) with hX
+  set Y := tInt e.2 (s.2 - e.2) with hY
+  set hi := min (min X.2 Y.2) 1 with hhi
+  set lo := max (max X.1 Y.1) 0 with hlo
+  have hlt : lo < hi := by
+    by_contra hc
+    have hc := not_lt.mp hc
+    have : max 0 (hi - lo) = 0 := max_eq_left (by linarith)
+    rw [this] at h; exact lt_irrefl _ h
+  have l1 : X.1 ≤ lo := le_trans (le_max_left _ _) (le_max_left _ _)
+  have l2 : Y.1 ≤ lo := le_trans (le_max_right _ _) (le_max_left _ _)
+  have l3 : 0 ≤ lo := le_max_right _ _
+  have u1 : hi ≤ X.2 := le_trans (min_le_left _ _) (min_le_left _ _)
+  have u2 : hi ≤ Y.2 := le_trans (min_le_left _ _) (min_le_right _ _)
+  have u3 : hi ≤ 1 := min_le_right _ _
+  refine ⟨(lo + hi) / 2, by linarith, by linarith, ?_⟩
+  have hx := tInt_strict e.1 (s.1 - e.1) ((lo + hi) / 2) (by rw [← hX]; linarith) (by rw [← hX]; linarith) (Or.inr he1)
+  have hy := tInt_strict e.2 (s.2 - e.2) ((lo + hi) / 2) (by rw [← hY]; linarith) (by rw [← hY]; linarith) (Or.inr he2)
+  rw [lin_eq, lin_eq]
+  exact ⟨hx.1, hx.2, hy.1, hy.2⟩
+
+/-- the periodic image shifted by `−(ox, oy)` cells -/
+def img (p : ℚ × ℚ) (ox oy : ℤ) : ℚ × ℚ := (p.1 - (ox : ℚ), p.2 - (oy : ℚ))
+
+/-- what `plot_edges` shows of one image inside the cell: the clipped fraction if the image is drawn, nothing otherwise -/
+def drawnFrac (s e : ℚ × ℚ) (ox oy : ℤ) : ℚ :=
+  if visible (img s ox oy) (img e ox oy) = true then frac (img e ox oy) (s.1 - e.1, s.2 - e.2) else 0
+
+/-- an image that is not drawn contributes nothing: its fraction inside the cell is zero -/
+theorem drawnFrac_eq (s e : ℚ × ℚ) (ox oy : ℤ) (hg : GenericSeg (img s ox oy) (img e ox oy)) :
+    drawnFrac s e ox oy = frac (img e ox oy) (s.1 - e.1, s.2 - e.2) := by
+  unfold drawnFrac
+  split
+  · rfl
+  · rename_i hv
+    symm
+    by_contra hne
+    have hnn : 0 ≤ frac (img e ox oy) (s.1 - e.1, s.2 - e.2) := by unfold frac; exact le_max_left _ _
+    have hpos : 0 < frac (img e ox oy) (s.1 - e.1, s.2 - e.2) := lt_of_le_of_ne hnn (Ne.symm hne)
+    have hd : ((img s ox oy).1 - (img e ox oy).1, (img s ox oy).2 - (img e ox oy).2) = (s.1 - e.1, s.2 - e.2) := by
+      unfold img; simp
+    have := frac_pos_meets (img s ox oy) (img e ox oy) hg.e1 hg.e2 (by rw [hd]; exact hpos)
+    exact hv (meets_visible _ _ hg this)
+
+/-- **C16 (edges), complete for generic edges**: for an edge whose end vertex lies in the unit cell and that spans less
+    than one cell in each direction, the pieces of the nine periodic images that `plot_edges` actually draws (the mask
+    `vis`), clipped to the unit cell, add up to exactly the whole edge — every part of the edge is shown, none twice. -/
+theorem drawn_fractions_sum_one (s e : ℚ × ℚ) (he1 : 0 ≤ e.1 ∧ e.1 < 1) (he2 : 0 ≤ e.2 ∧ e.2 < 1)
+    (hd1 : -1 < s.1 - e.1 ∧ s.1 - e.1 < 1) (hd2 : -1 < s.2 - e.2 ∧ s.2 - e.2 < 1)
+    (hg : ∀ ox oy : ℤ, GenericSeg (img s ox oy) (img e ox oy)) :
+    (drawnFrac s e (-1) (-1) + drawnFrac s e (-1) 0 + drawnFrac s e (-1) 1)
+      + (drawnFrac s e 0 (-1) + drawnFrac s e 0 0 + drawnFrac s e 0 1)
+      + (drawnFrac s e 1 (-1) + drawnFrac s e 1 0 + drawnFrac s e 1 1) = 1 := by
+  simp only [drawnFrac_eq s e _ _ (hg _ _)]
+  have g0 := hg 0 0
+  have p1 : 0 < e.1 := lt_of_le_of_ne he1.1 (by have := g0.e1.1; unfold img at this; simpa using Ne.symm this)
+  have p2 : 0 < e.2 := lt_of_le_of_ne he2.1 (by have := g0.e2.1; unfold img at this; simpa using Ne.symm this)
+  have := fractions_sum_one e (s.1 - e.1, s.2 - e.2) he1 he2 hd1 hd2 (Or.inr p1) (Or.inr p2)
+  unfold img
+  exact this
+
+/-- non-vacuity: the edge from (3/4, 1/2) to (5/4, 3/4) is generic in all its images, its image shifted by one cell to the
+    left is drawn, and so is the unshifted one -/
+example : ∀ ox oy : ℤ, GenericSeg (img ((5 : ℚ) / 4, (3 : ℚ) / 4) ox oy) (img ((3 : ℚ) / 4, (1 : ℚ) / 2) ox oy) := by
+  intro ox oy
+  refine ⟨?_, ?_, ?_, ?_, ?_⟩
+  · unfold img; simp only
+    constructor <;> intro h
+    · have : (4 * ox : ℚ) = 5 := by linarith
+      have : (4 * ox : ℤ) = 5 := by exact_mod_cast this
+      omega
+    · have : (4 * ox : ℚ) = 1 := by linarith
+      have : (4 * ox : ℤ) = 1 := by exact_mod_cast this
+      omega
+  · unfold img; simp only
+    constructor <;> intro h
+    · have : (4 * oy : ℚ) = 3 := by linarith
+      have : (4 * oy : ℤ) = 3 := by exact_mod_cast this
+      omega
+    · have : (4 * oy : ℚ) = -1 := by linarith
+      have : (4 * oy : ℤ) = -1 := by exact_mod_cast this
+      omega
+  · unfold img; simp only
+    constructor <;> intro h
+    · have : (4 * ox : ℚ) = 3 := by linarith
+      have : (4 * ox : ℤ) = 3 := by exact_mod_cast this
+      omega
+    · have : (4 * ox : ℚ) = -1 := by linarith
+      have : (4 * ox : ℤ) = -1 := by exact_mod_cast this
+      omega
+  · unfold img; simp only
+    constructor <;> intro h
+    · have : (2 * oy : ℚ) = 1 := by linarith
+      have : (2 * oy : ℤ) = 1 := by exact_mod_cast this
+      omega
+    · have : (2 * oy : ℚ) = -1 := by linarith
+      have : (2 * oy : ℤ) = -1 := by exact_mod_cast this
+      omega
+  · intro t _ _ h
+    unfold img lin at h
+    simp only at h
+    obtain ⟨hx, hy⟩ := h
+    -- x(t) = 3/4 + t/2 − ox, y(t) = 1/2 + t/4 − oy: x ∈ {0,1} and y ∈ {0,1} would give 4(a+ox) − 8(b+oy) = −1
+    rcases hx with hx | hx <;> rcases hy with hy | hy
+    · have : (4 * ox - 8 * oy : ℚ) = -1 := by linarith
+      have : (4 * ox - 8 * oy : ℤ) = -1 := by exact_mod_cast this
+      omega
+    · have : (4 * ox - 8 * oy : ℚ) = 7 := by linarith
+      have : (4 * ox - 8 * oy : ℤ) = 7 := by exact_mod_cast this
+      omega
+    · have : (4 * ox - 8 * oy : ℚ) = -5 := by linarith
+      have : (4 * ox - 8 * oy : ℤ) = -5 := by exact_mod_cast this
+      omega
+    · have : (4 * ox - 8 * oy : ℚ) = 3 := by linarith
+      have : (4 * ox - 8 * oy : ℤ) = 3 := by exact_mod_cast this
+      omega
+
+example : visible (img ((5 : ℚ) / 4, (3 : ℚ) / 4) 1 0) (img ((3 : ℚ) / 4, (1 : ℚ) / 2) 1 0) = true := by
+  unfold img; decide +kernel
+example : visible (img ((5 : ℚ) / 4, (3 : ℚ) / 4) 0 0) (img ((3 : ℚ) / 4, (1 : ℚ) / 2) 0 0) = true := by
+  unfold img; decide +kernel
+example : visible (img ((5 : ℚ) / 4, (3 : ℚ) / 4) 0 1) (img ((3 : ℚ) / 4, (1 : ℚ) / 2) 0 1) = false := by
+  unfold img; decide +kernel
+
+
+/-! ### which periodic images of a plaquette `plot_plaquettes` draws -/
+
+/-- along a path that starts where `P` holds and later visits a place where it fails there is a step from `P` to `¬P` -/
+theorem desc_pair {α : Type} (P : α → Prop) (a : α) (post : List α) (ha : P a) (hb : ∃ b ∈ post, ¬ P b) :
+    ∃ uv ∈ (a :: post).zip post, P uv.1 ∧ ¬ P uv.2 := by
+  induction post generalizing a with
+  | nil => obtain ⟨b, hb, _⟩ := hb; cases hb
+  | cons c rest ih =>
+    by_cases hc : P c
+    · obtain ⟨b, hbm, hnb⟩ := hb
+      have hbr : b ∈ rest := by
+        rcases List.mem_cons.mp hbm with h | h
+        · subst h; exact absurd hc hnb
+        · exact h
+      obtain ⟨uv, huv, h⟩ := ih c hc ⟨b, hbr, hnb⟩
+      exact ⟨uv, by simp only [List.zip_cons_cons]; exact List.mem_cons_of_mem _ huv, h⟩
+    · exact ⟨(a, c), by simp, ha, hc⟩
+
+theorem zip_tail_suffix {α : Type} (pre : List α) (a : α) (post : List α) :
+    ∀ uv ∈ (a :: post).zip post, uv ∈ (pre ++ a :: post).zip (pre ++ a :: post).tail := by
+  induction pre with
+  | nil => intro uv h; simpa using h
+  | cons p pre ih =>
+    intro uv h
+    have := ih uv h
+    cases pre with
+    | nil => simp only [List.nil_append, List.cons_append, List.tail_cons, List.zip_cons_cons] at this ⊢
+             exact List.mem_cons_of_mem _ this
+    | cons q pre' =>
+      simp only [List.cons_append, List.tail_cons, List.zip_cons_cons] at this ⊢
+      exact List.mem_cons_of_mem _ this
+
+/-- on a closed polygon on which `P` holds somewhere and fails somewhere, some side leads from `P` to `¬P` -/
+theorem cyclic_desc {α : Type} (P : α → Prop) (l : List α) (ha : ∃ a ∈ l, P a) (hb : ∃ b ∈ l, ¬ P b) :
+    ∃ uv ∈ cyclicPairs l, P uv.1 ∧ ¬ P uv.2 := by
+  cases l with
+  | nil => obtain ⟨a, h, _⟩ := ha; cases h
+  | cons x xs =>
+    unfold cyclicPairs
+    by_cases hx : P x
+    · obtain ⟨b, hbm, hnb⟩ := hb
+      have : b ∈ xs := by
+        rcases List.mem_cons.mp hbm with h | h
+        · subst h; exact absurd hx hnb
+        · exact h
+      exact desc_pair P x (xs ++ [x]) hx ⟨b, List.mem_append_left _ this, hnb⟩
+    · obtain ⟨a, ham, hpa⟩ := ha
+      have hax : a ∈ xs := by
+        rcases List.mem_cons.mp ham with h | h
+        · subst h; exact absurd hpa hx
+        · exact h
+      obtain ⟨pre, post, hsplit⟩ := List.append_of_mem hax
+      obtain ⟨uv, huv, h⟩ := desc_pair P a (post ++ [x]) hpa ⟨x, by simp, hx⟩
+      refine ⟨uv, ?_, h⟩
+      have := zip_tail_suffix (x :: pre) a (post ++ [x]) uv huv
+      have e : x :: (xs ++ [x]) = (x :: pre) ++ a :: (post ++ [x]) := by rw [hsplit]; simp
+      show uv ∈ (x :: (xs ++ [x])).zip (xs ++ [x])
+      have e2 : xs ++ [x] = (x :: (xs ++ [x])).tail := rfl
+      rw [e2, e]
+      exact this
+
+/-- `0 < t ≤ 1` for a side that goes from `start ≥ l` down to `end < l` -/
+theorem crossLine_desc (sa ea l : ℚ) (h1 : l ≤ sa) (h2 : ea < l) : crossLine sa ea l = true := by
+  unfold crossLine wallT
+  have hne : sa - ea ≠ 0 := by intro h; linarith
+  have hpos : 0 < sa - ea := by linarith
+  rw [if_neg hne]
+  have a1 : 0 < (l - ea) / (sa - ea) := div_pos (by linarith) hpos
+  have a2 : (l - ea) / (sa - ea) ≤ 1 := by rw [div_le_one hpos]; linarith
+  simp [a1, a2]
+
+/-- … and for a side that goes from `start ≤ l` up to `end > l` -/
+theorem crossLine_asc (sa ea l : ℚ) (h1 : sa ≤ l) (h2 : l < ea) : crossLine sa ea l = true := by
+  unfold crossLine wallT
+  have hne : sa - ea ≠ 0 := by intro h; linarith
+  have hneg : sa - ea < 0 := by linarith
+  rw [if_neg hne]
+  have a1 : 0 < (l - ea) / (sa - ea) := div_pos_of_neg_of_neg (by linarith) hneg
+  have a2 : (l - ea) / (sa - ea) ≤ 1 := by rw [div_le_one_of_neg hneg]; linarith
+  simp [a1, a2]
+
+def coord (axis : Bool) (p : ℚ × ℚ) : ℚ := if axis then p.2 else p.1
+
+theorem polyCrosses_of_pair (pts : List (ℚ × ℚ)) (axis : Bool) (l : ℚ) (uv : (ℚ × ℚ) × (ℚ × ℚ)) (hm : uv ∈ cyclicPairs pts)
+    (h : crossLine (coord axis uv.1) (coord axis uv.2) l = true) : polyCrosses pts axis l = true := by
+  unfold polyCrosses
+  rw [List.any_eq_true]
+  refine ⟨uv, hm, ?_⟩
+  cases axis <;> simpa [coord] using h
+
+/-- the polygon reaches below the line `0` along `axis` while one of its corners is at or above it ⇒ `+1` is among the pads -/
+theorem pad_plus (pts : List (ℚ × ℚ)) (axis : Bool) (hlow : ∃ p ∈ pts, coord axis p < 0) (hanchor : ∃ a ∈ pts, 0 ≤ coord axis a) :
+    (1 : ℤ) ∈ pads pts axis := by
+  obtain ⟨uv, hm, h1, h2⟩ := cyclic_desc (fun p => 0 ≤ coord axis p) pts hanchor
+    (by obtain ⟨p, hp, h⟩ := hlow; exact ⟨p, hp, not_le.mpr h⟩)
+  have := polyCrosses_of_pair pts axis 0 uv hm (crossLine_desc _ _ 0 h1 (not_le.mp h2))
+  unfold pads; simp [this]
+
+/-- the polygon reaches above the line `1` along `axis` while one of its corners is below it ⇒ `−1` is among the pads -/
+theorem pad_minus (pts : List (ℚ × ℚ)) (axis : Bool) (hhigh : ∃ p ∈ pts, 1 < coord axis p) (hanchor : ∃ a ∈ pts, coord axis a < 1) :
+    (-1 : ℤ) ∈ pads pts axis := by
+  obtain ⟨uv, hm, h1, h2⟩ := cyclic_desc (fun p => coord axis p ≤ 1) pts
+    (by obtain ⟨a, ha, h⟩ := hanchor; exact ⟨a, ha, le_of_lt h⟩)
+    (by obtain ⟨p, hp, h⟩ := hhigh; exact ⟨p, hp, not_le.mpr h⟩)
+  have := polyCrosses_of_pair pts axis 1 uv hm (crossLine_asc _ _ 1 h1 (not_le.mp h2))
+  unfold pads; simp [this]
+
+theorem pad_zero (pts : List (ℚ × ℚ)) (axis : Bool) : (0 : ℤ) ∈ pads pts axis := by unfold pads; simp
+
+/-- along one axis: if the copy shifted by `o ∈ {−1, 0, 1}` has corners on both sides of … (its extent meets `(0,1)`), `o` is a pad -/
+theorem pad_needed (pts : List (ℚ × ℚ)) (axis : Bool) (o : ℤ) (ho : o = -1 ∨ o = 0 ∨ o = 1)
+    (hanchor : ∃ a ∈ pts, 0 ≤ coord axis a ∧ coord axis a < 1)
+    (hlo : ∃ p ∈ pts, coord axis p + (o : ℚ) < 1) (hhi : ∃ p ∈ pts, 0 < coord axis p + (o : ℚ)) : o ∈ pads pts axis := by
+  obtain ⟨a, ha, ha0, ha1⟩ := hanchor
+  rcases ho with h | h | h <;> subst h
+  · obtain ⟨p, hp, h⟩ := hhi
+    exact pad_minus pts axis ⟨p, hp, by push_cast at h; linarith⟩ ⟨a, ha, ha1⟩
+  · exact pad_zero pts axis
+  · obtain ⟨p, hp, h⟩ := hlo
+    exact pad_plus pts axis ⟨p, hp, by push_cast at h; linarith⟩ ⟨a, ha, ha0⟩
+
+/-- **C16 (plaquettes, which copies are drawn)**: the polygon of a plaquette has a corner in the unit cell `[0,1)²` (the
+    vertex the walk starts from).  Every copy shifted by `(ox, oy)`, `ox, oy ∈ {−1, 0, 1}`, whose extent meets the open
+    unit cell in both coordinates — in particular every copy that covers a point of the cell — is among the copies drawn. -/
+theorem needed_copies_drawn (pts : List (ℚ × ℚ)) (ox oy : ℤ) (hox : ox = -1 ∨ ox = 0 ∨ ox = 1) (hoy : oy = -1 ∨ oy = 0 ∨ oy = 1)
+    (hanchor : ∃ a ∈ pts, (0 ≤ a.1 ∧ a.1 < 1) ∧ (0 ≤ a.2 ∧ a.2 < 1))
+    (hx : (∃ p ∈ pts, p.1 + (ox : ℚ) < 1) ∧ (∃ p ∈ pts, 0 < p.1 + (ox : ℚ)))
+    (hy : (∃ p ∈ pts, p.2 + (oy : ℚ) < 1) ∧ (∃ p ∈ pts, 0 < p.2 + (oy : ℚ))) :
+    (ox, oy) ∈ polyOffsets pts := by
+  obtain ⟨a, ha, hax, hay⟩ := hanchor
+  unfold polyOffsets
+  rw [List.mem_flatMap]
+  refine ⟨ox, pad_needed pts false ox hox ⟨a, ha, by simpa [coord] using hax⟩ (by simpa [coord] using hx.1) (by simpa [coord] using hx.2), ?_⟩
+  rw [List.mem_map]
+  exact ⟨oy, pad_needed pts true oy hoy ⟨a, ha, by simpa [coord] using hay⟩ (by simpa [coord] using hy.1) (by simpa [coord] using hy.2), rfl⟩
+
+/-- no copy further away is needed when the polygon stays within one cell of the unit cell -/
+theorem far_copies_not_needed (pts : List (ℚ × ℚ)) (o : ℤ) (axis : Bool) (hb : ∀ p ∈ pts, -1 ≤ coord axis p ∧ coord axis p ≤ 2)
+    (hlo : ∃ p ∈ pts, coord axis p + (o : ℚ) < 1) (hhi : ∃ p ∈ pts, 0 < coord axis p + (o : ℚ)) : o = -1 ∨ o = 0 ∨ o = 1 := by
+  obtain ⟨p, hp, h1⟩ := hlo
+  obtain ⟨q, hq, h2⟩ := hhi
+  have b1 := (hb p hp).1
+  have b2 := (hb q hq).2
+  have c1 : (o : ℚ) < 2 := by linarith
+  have c2 : (-2 : ℚ) < o := by linarith
+  have d1 : o < 2 := by exact_mod_cast c1
+  have d2 : -2 < o := by exact_mod_cast c2
+  omega
+
+theorem pads_nodup (pts : List (ℚ × ℚ)) (axis : Bool) : (pads pts axis).Nodup := by
+  unfold pads
+  split <;> split <;> decide
+
+/-- no copy is drawn twice: the offsets of the drawn copies are pairwise different -/
+theorem polyOffsets_nodup (pts : List (ℚ × ℚ)) : (polyOffsets pts).Nodup := by
+  unfold polyOffsets
+  have hx := pads_nodup pts false
+  have hy := pads_nodup pts true
+  generalize pads pts false = A at hx
+  generalize pads pts true = B at hy
+  induction A with
+  | nil => simp
+  | cons a A ih =>
+    rw [List.flatMap_cons, List.nodup_append]
+    refine ⟨?_, ih (List.nodup_cons.mp hx).2, ?_⟩
+    · exact hy.map (fun _ _ h => (Prod.mk.inj h).2)
+    · intro u hu v hv huv
+      subst huv
+      obtain ⟨_, _, rfl⟩ := List.mem_map.mp hu
+      obtain ⟨a', ha', hv'⟩ := List.mem_flatMap.mp hv
+      obtain ⟨_, _, h⟩ := List.mem_map.mp hv'
+      have : a' = a := (Prod.mk.inj h).1
+      subst this
+      exact (List.nodup_cons.mp hx).1 ha'
+
+example : polyOffsets [((4 : ℚ) / 5, (1 : ℚ) / 5), ((6 : ℚ) / 5, (1 : ℚ) / 5), ((6 : ℚ) / 5, (4 : ℚ) / 5), ((4 : ℚ) / 5, (4 : ℚ) / 5)] = [(-1, 0), (0, 0)] := by
+  decide +kernel
 
 end C16
